@@ -53,6 +53,14 @@ func runC13(s *scn.Scenario, res *scn.Result) {
 			ref[k] = outs[0]
 			mix(outs[0])
 		}
+		// what a fresh process must also obtain for each kind (isolated reference)
+		for _, k := range opKinds {
+			h := ""
+			if out, ok := ref[k]; ok {
+				h = strconv.FormatUint(strHash(out)^uint64(len(out)), 16)
+			}
+			res.PipeHashes = append(res.PipeHashes, h)
+		}
 
 		// ---- the subject tree
 		p := doParse(in, false)
@@ -153,4 +161,29 @@ func runC13(s *scn.Scenario, res *scn.Result) {
 	}
 	snapshotPhase1(res)
 	res.OutcomeHash = strconv.FormatUint(outcome, 16)
+}
+
+// runIsoC13 computes ONE operation kind on a freshly parsed tree in this fresh
+// process: nothing else has run here, so state that the in-process reference
+// table inherits from earlier operations cannot be present.
+func runIsoC13(s *scn.Scenario, k int, res *scn.Result) {
+	if len(s.Inputs) != 1 || k < 0 || k >= len(opKinds) {
+		res.Infra = "iso: bad request"
+		return
+	}
+	in := &s.Inputs[0]
+	zzsim.Init(refConfig(s))
+	applyKnob(s.Knob)
+	zzsim.Spawn(func() {
+		p := doParse(in, false)
+		if p.out != "" || p.root == nil {
+			res.PipeHashes = []string{""}
+			return
+		}
+		r := doOp(opKinds[k], p.root, len(in.Src), nil)
+		res.PipeHashes = []string{strconv.FormatUint(strHash(r.out)^uint64(len(r.out)), 16)}
+		res.Trace = []string{opKinds[k] + ": " + short(r.out, 600)}
+	})
+	zzsim.Run()
+	res.Steps = zzsim.Steps
 }
